@@ -40,12 +40,17 @@ def gen(seed, run, sub="direct", tier="quick"):
     r = common.rng_for(seed, run, "c17/" + sub)
     core = sub == "core"
     stream = gen_stream(r, core)
+    if not core and r.random() < 0.05:
+        stream = b"\n" + stream                          # the stream starts with a newline
+    if not core and r.random() < 0.05 and len(stream) > 10:
+        stream = (stream * (1 + 512 // len(stream)))[:r.choice([256, 512, 768])]   # exact multiple of the read size
     if core:
         stream = b"start\n" + stream
     arrivals = []
     t = 0.0
     pos = 0
     align = r.random() < 0.25   # chunk boundaries right after a newline
+    crsplit = (not align) and r.random() < 0.1
     silence = r.choice([0, 0, 0, 0, 0.02, 0.1]) if sub == "direct" else 0
     nsil = 0
     while pos < len(stream):
@@ -54,6 +59,10 @@ def gen(seed, run, sub="direct", tier="quick"):
             j = stream.find(b"\n", pos, pos + sz)
             if j >= 0:
                 sz = j + 1 - pos
+        elif crsplit:
+            j = stream.find(b"\r\n", pos, pos + sz)
+            if j >= 0:
+                sz = j + 1 - pos          # CR is the last byte of this arrival, LF starts the next
         t += r.choice([0, 0, 0.001, 0.1, 0.26, 0.6])
         if silence and nsil < 3 and r.random() < silence:
             t += r.choice([31.0, 70.0, 400.0])      # the device is silent for a long while
